@@ -148,6 +148,12 @@ func loadContracts(L *Loaded) (*ContractSet, []string, error) {
 			name = "ociregistry"
 		}
 		mirror := filepath.Join(verifDir, "contracts", name, "contracts_verif.go")
+		if d := os.Getenv("GOVC_MIRROR"); d != "" {
+			// experiments: an alternative mirror directory (falls back to the regular one per package)
+			if _, err := os.Stat(filepath.Join(d, name, "contracts_verif.go")); err == nil {
+				mirror = filepath.Join(d, name, "contracts_verif.go")
+			}
+		}
 		rb, rerr := os.ReadFile(repoFile)
 		mb, merr := os.ReadFile(mirror)
 		use := ""
